@@ -4,7 +4,7 @@
    on either side, the corresponding [xc ... = true] / [ic ... = true] obligation fails. *)
 From Coq Require Import String List Arith NArith ZArith Bool Lia Permutation.
 From J5V.lib Require Import Outcome.
-From J5V.model Require Import ReflectDesc ReflectSchema Reflect Export.
+From J5V.model Require Import ReflectDesc ReflectSchema Reflect Export ExportFields.
 From J5V.gen Require ReflectGen.
 From J5V.proofs Require Import ReflectProofs.
 Import ListNotations.
@@ -590,3 +590,14 @@ Proof.
   unfold export_entries in Hx. apply in_map_iff in Hx as ([k0 r0] & Hf & H0). cbn [fst snd] in Hf. inversion Hf; subst k x.
   destruct (import_export_root r0 (Himp k0 r0 H0)) as (r'' & Hir' & He). rewrite Hir in Hir'. inversion Hir'; subst r''. exact He.
 Qed.
+
+(* ---------------------------------------------------------------- the round trip against schema.proto's own field list *)
+(* every struct of schema.pb.go (messages of j5/schema/v1/schema.proto and their oneof wrappers, regenerated
+   from /repo) is classified Built / Whole / Never (model/ExportFields.v); every member of a Built struct is
+   set by an export literal of that type and read by a selector expression of the import, or is on an
+   explicit dropped list (ObjectField.entity; MapField.key_schema on the import side) and then is NOT
+   set / read; the export literals set no member the struct does not have and build no Whole / Never struct *)
+Lemma export_import_cover_schema_proto :
+  classes_cover = true /\ export_covers = true /\ import_covers = true /\ dropped_exact = true /\
+  export_builds_only_built = true.
+Proof. repeat split; vm_compute; reflexivity. Qed.
